@@ -19,7 +19,7 @@ for pid in sorted(props.PROPS):
         "evidence_file": "/verif/evidence/%s.json" % pid,
         "replay_cmd_template": "./check %s --replay {path}" % pid,
         "engine": "coq-model+correspondence",
-        "level_claimed": {"category": "proof", "text": p.get("level_text", ""), "design_ref": "DESIGN.md section 5 " + pid},
+        "level_claimed": {"category": "proof", "text": p.get("level_text", ""), "design_ref": "DESIGN.md section 5 " + pid + " (plan) and section 10.2 (as built)"},
         "level_note": BASE_NOTE + p.get("level_note", ""),
         "technique": p.get("technique", "Coq proof over an executable Gallina model + extracted-model differential against the code"),
     })
